@@ -137,6 +137,9 @@ class focus_set:
     raises_iff = {IndexError: lambda s, a: both(length(s.items) > 0, either(a.index < 0, a.index >= length(s.items)))}
     modifies = ("_focus",)
     invariant = staticmethod(RI)
+    # the mutators call the setter while the invariant is broken (list already changed, focus not yet adjusted):
+    # its body is verified for ANY stored focus, and it must establish the invariant (empty list: focus 0)
+    establishes_invariant = True
 
     def ensures(old, s, a, result):
         n = length(old.items)
